@@ -20,7 +20,11 @@ RULE = ("each run = 1-3 concurrent caller threads x 1-3 remote calls with attrib
         "(before any byte, inside id, id/length boundary, inside length, length/body boundary, inside body, frame end-1, between "
         "frames) of a drawn frame in either direction, server shutdown, client close racing, server-side error, connect-before-"
         "listen; after an observed loss each caller issues one more call; non-trivial = a fault fired or responses arrived out "
-        "of request order or >= 2 calls were pending at once; distinct = distinct digest of the event log")
+        "of request order or >= 2 calls were pending at once; distinct = distinct digest of the event log.  Cuts come as FIN, "
+        "RST or ETIMEDOUT; calls are strings, function calls, proxies, remote dictionary get/set, requests and responses above "
+        "64 KiB, requests that cannot be encoded (one, or 70 in a row), server values that cannot be sent back; write "
+        "back-pressure and a failing application on_error callback are drawn per run; a second client on its own connection "
+        "in the two-clients configuration")
 ASSUMPTIONS = [
     "TCP model: in-order, lossless, duplicate-free byte pipes per direction; cuts sever both directions; no silent stall without close",
     "exception class is free: any exception counts as 'raises'; exceptions raised by harness stubs are harness errors",
@@ -34,7 +38,9 @@ REAL_STUB = {
 }
 EXPECTED_PROBES = [f"fault_cut_{c}_{k}" for c in CUT_CLASSES for k in ("fin", "rst")] + [
     "probe_two_or_more_pending", "probe_three_pending", "probe_out_of_order_arrival", "probe_call_after_loss", "probe_close_race",
-    "probe_retry_path", "probe_server_error", "probe_server_shutdown", "probe_peer_push_handled", "probe_cut_with_calls_pending"]
+    "probe_retry_path", "probe_server_error", "probe_server_shutdown", "probe_peer_push_handled", "probe_cut_with_calls_pending",
+    "probe_big_response", "probe_big_request", "probe_unencodable_request", "probe_broken_on_error_ran",
+    "probe_many_unencodable_requests_then_a_call", "net_cut_timeout", "probe_two_connections"]
 WALL_CAP = {"quick": 400, "thorough": 3600}
 
 
